@@ -1,4 +1,5 @@
 import Snel.Lemmas.Compact
+import Snel.Lemmas.CompactPlan
 /-!
 # C05 — compaction changes layout, never content
 
@@ -60,6 +61,49 @@ example :
     GoodBatches (loadIndex s) (groupPlans (planAll (loadIndex s).kmerge (loadIndex s).index)) ∧
       Listed (loadIndex s) 1 0 := by
   unfold GoodBatches Listed
+  decide
+
+/-- The side condition `GoodBatches` of the round theorem is a THEOREM about the planner, for
+every index: the ids `planAll` hands out are pairwise distinct and name neither an index entry nor
+a live directory — provided every live directory has an index entry and no level's offsets run
+past the level span (`NoOverflow`: next free offset of the level + number of plans ≤ 10000). The
+allocator hands out `level·span + (max offset at level + 1) + i`. The planner itself is compared
+with the real `KWayCountPolicy::plan` / `SegmentBatch::group_plans` by the `plan` stream. -/
+theorem C05_planner_outputs_fresh (s : Shard)
+    (hlive : ∀ l ∈ s.live, ∃ ent ∈ s.index, ent.1 = l)
+    (hb : NoOverflow s.kmerge s.index) :
+    GoodBatches s (groupPlans (planAll s.kmerge s.index)) :=
+  planner_outputs_good s hlive hb
+
+/-- Whole round, side condition discharged: ANY state whose live directories are all indexed and
+whose levels have room left loses no listed row in a compaction round — any number of batches,
+levels and event types. PARTIAL in `Listed` (the row's type must be listed for its directory:
+true of every flush and compaction output, see `C05_no_double_read_fails` for what goes wrong on
+the other side of it) and in `NoOverflow` (`C05_allocator_overflow_collides_fails`). -/
+theorem C05_round_no_loss_planned_partial (s : Shard) (e : Ev)
+    (hlive : ∀ l ∈ (loadIndex s).live, ∃ ent ∈ (loadIndex s).index, ent.1 = l)
+    (hb : NoOverflow (loadIndex s).kmerge (loadIndex s).index)
+    (id : Nat) (hid : id ∈ (loadIndex s).live) (hrow : e ∈ segRows (loadIndex s) id)
+    (hlisted : Listed (loadIndex s) id e.ty) :
+    e ∈ liveRows (compactRound s) :=
+  round_no_loss s e (planner_outputs_good (loadIndex s) hlive hb) ⟨id, hid, by simp, hrow, hlisted⟩
+
+/-- Non-vacuity: the witness state of the round theorem meets both new hypotheses. -/
+example :
+    let s := loadIndex (runOps (Shard.init 2 3)
+      [.store ⟨1,0,0⟩, .store ⟨2,0,1⟩, .drain, .store ⟨3,0,0⟩, .store ⟨4,0,0⟩, .drain,
+       .store ⟨5,0,0⟩, .store ⟨6,0,0⟩, .drain])
+    (∀ l ∈ s.live, ∃ ent ∈ s.index, ent.1 = l) ∧
+      (planAll s.kmerge s.index).length = 1 ∧ nextOffset (s.index.map (·.1)) 1 = 0 := by
+  decide
+
+/-- Without the bound the statement is FALSE of the planner as modelled — and of the real one
+(`plan` stream, witness case 0): with labels 0, 1, 19999, 20000 and fan-in 2 the level-0 merge is
+given output id `1·10000 + (9999 + 1) = 20000`, the id of an existing level-2 segment
+(finding C05-allocator-offset-runs-past-level-span). -/
+theorem C05_allocator_overflow_collides_fails :
+    let index : List (Nat × List Nat) := [(0, [0]), (1, [0]), (19999, [0]), (20000, [0])]
+    ∃ p ∈ planAll 2 index, p.inputs = [0, 1] ∧ p.out = 20000 ∧ ∃ ent ∈ index, ent.1 = p.out := by
   decide
 
 /-- "No event becomes readable from both an input and an output segment" is FALSE of the code
